@@ -10,8 +10,9 @@
    killed at any of the four kill points), read errors, crashes, any number of generations of Restart on the
    same directory with any capacities Q, M >= 1 and any size limit, a directory that cannot be opened,
    foreign files appearing between generations.  The vocabulary (entered, is_orig, taken ...) is Spec/BufferSpec.v. *)
-From SV Require Import Model.Common Model.FileWrite Model.Buffer Spec.BufferSpec
-     Proofs.FileWriteProofs Proofs.BufferInv Proofs.BufferTheorems Proofs.BufferExamples Proofs.DrainProofs.
+From SV Require Import Model.Common Model.FileWrite Model.Buffer Model.BufferStart Spec.BufferSpec
+     Proofs.FileWriteProofs Proofs.BufferInv Proofs.BufferTheorems Proofs.BufferExamples Proofs.DrainProofs
+     Proofs.BufferStartProofs.
 From Coq Require Import Sorting.Sorted.
 
 (* Conservation.  When Destroy has completed (feeder stopped) and the consumers have reported every chunk they
@@ -176,3 +177,96 @@ Theorem C03_example :
     map c_id (taken (st_gh s)) = [n_a; n_b].
 Proof. exact ex_conservation. Qed.
 Print Assumptions C03_example.
+
+(* ---------- the order the consumer sees, and the start-up as steps (Model/BufferStart.v) ---------- *)
+
+(* The consumer-visible form of FIFO: the IDs of the chunks the consumers have received, in the order received, are
+   an order-preserving selection of "the recovered chunks in ID (= creation) order, then the accepted and enqueued
+   chunks in acceptance order" - no chunk is ever received before one that precedes it in that sequence. *)
+Theorem C03_consumer_order :
+  forall matchf dirsize, matcher_ok matchf ->
+  forall s, reachable matchf dirsize s -> st_up s = true ->
+  let g := st_gh s in
+  subseq (ids (taken g)) (g_rec g ++ enq_ids g) /\ StronglySorted name_lt (g_rec g).
+Proof. exact consumer_order_lemma. Qed.
+Print Assumptions C03_consumer_order.
+
+(* ... and once the consumers have received as many chunks as were recovered and enqueued, the order received IS
+   that sequence: it does not depend on the schedule. *)
+Theorem C03_order_determined :
+  forall matchf dirsize, matcher_ok matchf ->
+  forall s, reachable matchf dirsize s -> st_up s = true ->
+  let g := st_gh s in
+  length (taken g) = length (g_rec g ++ enq_ids g) ->
+  ids (taken g) = g_rec g ++ enq_ids g.
+Proof. exact order_determined_lemma. Qed.
+Print Assumptions C03_order_determined.
+
+(* START-UP AS STEPS.  bufferer.Start is not atomic: ScanChunks, one iteration of RECOVERY_LOOP per chunk file,
+   "go feeder.Run()", return - with the feeder goroutine starting to run at some later moment and the caller's
+   Accept / RegisterNewConsumer / Destroy possible as soon as Start has returned.  For the order of the code
+   (RecoverThenReturn: the loop runs inside Start) EVERY run of the stepwise model - any interleaving of those
+   steps with all the events of the buffer, any number of generations - that is not inside a recovery loop ends in
+   exactly the state the atomic model (one ERestart per start-up) reaches on the same events: the abstraction
+   used by all theorems above is sound for the code as it is. *)
+Theorem C03_startup_refines_atomic :
+  forall matchf dirsize d evs ss,
+  srun matchf dirsize RecoverThenReturn (sinit d) evs = Some ss -> ph_pending (ss_ph ss) = None ->
+  run matchf dirsize (init d) (collapse_all evs) = Some (ss_b ss).
+Proof. exact startup_refines_atomic. Qed.
+Print Assumptions C03_startup_refines_atomic.
+
+(* While the recovery loop runs (order of the code): Start has not returned, the feeder goroutine does not run,
+   nothing has been accepted, the window is empty; the queue holds exactly the chunks enqueued so far, which with
+   the chunks the loop still has to go through make up the sorted scan of the directory. *)
+Theorem C03_startup_during_recovery :
+  forall matchf dirsize d evs ss pending,
+  srun matchf dirsize RecoverThenReturn (sinit d) evs = Some ss -> ph_pending (ss_ph ss) = Some pending ->
+  let b := ss_b ss in
+  ph_returned (ss_ph ss) = false /\ ph_feeder (ss_ph ss) = false /\
+  g_acc (st_gh b) = [] /\ st_win b = [] /\ st_fpc b = FRecv /\
+  scan matchf (st_dirok b) (g_init (st_gh b)) = st_queue b ++ pending /\
+  g_rec (st_gh b) = ids (st_queue b) /\ (length (st_queue b) <= st_Q b)%nat.
+Proof. exact startup_during_recovery. Qed.
+Print Assumptions C03_startup_during_recovery.
+
+(* FIFO across the start-up, for all interleavings of the stepwise model in the order of the code: the recovered
+   chunks are the first Q of the sorted scan; whatever the consumers have received is an order-preserving selection
+   of recovered-in-creation-order ++ accepted-in-acceptance-order; when everything has been received it is that
+   sequence. *)
+Theorem C03_startup_fifo :
+  forall matchf dirsize, matcher_ok matchf ->
+  forall d evs ss, dir_sorted d ->
+  srun matchf dirsize RecoverThenReturn (sinit d) evs = Some ss -> ph_pending (ss_ph ss) = None ->
+  st_up (ss_b ss) = true ->
+  let g := st_gh (ss_b ss) in
+  g_rec g = ids (firstn (st_Q (ss_b ss)) (scan matchf (st_dirok (ss_b ss)) (g_init g))) /\
+  StronglySorted name_lt (g_rec g) /\
+  subseq (ids (taken g)) (g_rec g ++ enq_ids g) /\
+  (length (taken g) = length (g_rec g ++ enq_ids g) -> ids (taken g) = g_rec g ++ enq_ids g).
+Proof. exact startup_fifo. Qed.
+Print Assumptions C03_startup_fifo.
+
+(* The VARIANT "Start lists the directory and returns; a background goroutine enqueues the recovered chunks and then
+   runs the feeder" (ReturnThenRecover) violates it: one chunk file a.ff on disk, b.ff accepted right after Start
+   returned and before the background goroutine enqueued a.ff - the consumer receives b.ff, then a.ff. *)
+Theorem C03_startup_async_variant_refuted :
+  exists ss, srun match_ff 4096 ReturnThenRecover (sinit v_dir) v_run = Some ss /\
+    ph_pending (ss_ph ss) = None /\ st_up (ss_b ss) = true /\
+    g_rec (st_gh (ss_b ss)) = [v_a] /\ enq_ids (st_gh (ss_b ss)) = [v_b] /\
+    ids (taken (st_gh (ss_b ss))) = [v_b; v_a] /\
+    ~ subseq (ids (taken (st_gh (ss_b ss)))) (g_rec (st_gh (ss_b ss)) ++ enq_ids (st_gh (ss_b ss))).
+Proof. exact startup_async_refuted. Qed.
+Print Assumptions C03_startup_async_variant_refuted.
+
+(* Non-vacuity (evaluation of the model on literals): in the order of the code that event list is not a run (Start
+   cannot return inside the loop); with the loop first the consumer receives a.ff then b.ff, byte for byte, whether
+   the feeder goroutine starts before or after the Accept. *)
+Theorem C03_startup_example :
+  srun match_ff 4096 RecoverThenReturn (sinit v_dir) v_run = None /\
+  forall ff, exists ss, srun match_ff 4096 RecoverThenReturn (sinit v_dir) (c_run ff) = Some ss /\
+    ph_pending (ss_ph ss) = None /\ st_up (ss_b ss) = true /\
+    ids (taken (st_gh (ss_b ss))) = [v_a; v_b] /\
+    map (fun c => c_data c) (taken (st_gh (ss_b ss))) = [Some [1; 2; 3]; Some [7; 8]].
+Proof. exact startup_example. Qed.
+Print Assumptions C03_startup_example.
